@@ -367,6 +367,12 @@ def run(repo: Repo, chk: Check) -> None:
     has_len = any(isinstance(c.func, ast.Name) and c.func.id == 'len' for c in ast.walk(sz.node) if isinstance(c, ast.Call))
     chk.ob('R-TABLE', sz.qualname, has_len, 'SIZE is len()', sz.loc, what='SIZE does not use len of the collection')
 
+    # ---- memory across calls (shared rule, sa/statelint.py) ----------------------------------------------------------------------------------
+    chk.set_clause('C14.M')
+    from ..statelint import check_memory
+    check_memory(repo, chk, ['pytezos.michelson.types.set.', 'pytezos.michelson.types.map.'],
+                 'two collections share one item list: an insertion into one shows up in the other')
+
 
 def controls(chk: Check) -> None:
     c = classify('set', App('sorted', App('concat', [Sym('x')], Sym('ITEMS')), 'identity', None), [], [])
